@@ -71,13 +71,16 @@ namespace TAO_PEGTL_NAMESPACE
          coverage_result& result;
          std::vector< std::string_view > stack;
 
+         // Some rules call rules through the control that are not listed in their subs_t (rep_min_max its
+         // trailing not_at, strict and star_strict their seq), so entries are created on demand.
+
          template< typename Rule, typename ParseInput, typename... States >
          void start( const ParseInput& /*unused*/, States&&... /*unused*/ )
          {
             const auto name = demangle< Rule >();
-            ++result.at( name ).start;
+            ++result[ name ].start;
             if( !stack.empty() ) {
-               ++result.at( stack.back() ).branches.at( name ).start;
+               ++result[ stack.back() ].branches[ name ].start;
             }
             stack.push_back( name );
          }
@@ -87,9 +90,9 @@ namespace TAO_PEGTL_NAMESPACE
          {
             stack.pop_back();
             const auto name = demangle< Rule >();
-            ++result.at( name ).success;
+            ++result[ name ].success;
             if( !stack.empty() ) {
-               ++result.at( stack.back() ).branches.at( name ).success;
+               ++result[ stack.back() ].branches[ name ].success;
             }
          }
 
@@ -98,9 +101,9 @@ namespace TAO_PEGTL_NAMESPACE
          {
             stack.pop_back();
             const auto name = demangle< Rule >();
-            ++result.at( name ).failure;
+            ++result[ name ].failure;
             if( !stack.empty() ) {
-               ++result.at( stack.back() ).branches.at( name ).failure;
+               ++result[ stack.back() ].branches[ name ].failure;
             }
          }
 
@@ -108,9 +111,9 @@ namespace TAO_PEGTL_NAMESPACE
          void raise( const ParseInput& /*unused*/, States&&... /*unused*/ )
          {
             const auto name = demangle< Rule >();
-            ++result.at( name ).raise;
+            ++result[ name ].raise;
             if( !stack.empty() ) {
-               ++result.at( stack.back() ).branches.at( name ).raise;
+               ++result[ stack.back() ].branches[ name ].raise;
             }
          }
 
@@ -118,9 +121,9 @@ namespace TAO_PEGTL_NAMESPACE
          void raise_nested( const Ambient& /*unused*/, States&&... /*unused*/ )
          {
             const auto name = demangle< Rule >();
-            ++result.at( name ).raise_nested;
+            ++result[ name ].raise_nested;
             if( !stack.empty() ) {
-               ++result.at( stack.back() ).branches.at( name ).raise_nested;
+               ++result[ stack.back() ].branches[ name ].raise_nested;
             }
          }
 
@@ -129,9 +132,9 @@ namespace TAO_PEGTL_NAMESPACE
          {
             stack.pop_back();
             const auto name = demangle< Rule >();
-            ++result.at( name ).unwind;
+            ++result[ name ].unwind;
             if( !stack.empty() ) {
-               ++result.at( stack.back() ).branches.at( name ).unwind;
+               ++result[ stack.back() ].branches[ name ].unwind;
             }
          }
 
